@@ -36,6 +36,7 @@ PLANS = {
             S("c04_reqatk", 1500, 50000),
             S("c04_repatk", 1200, 40000),
             S("c04_prewire", 300, 9000),   # replies to request ids that are queued but not yet on the wire
+            S("c04_gone", 600, 18000),     # REP replies to a requester that has gone away: the request is consumed all the same
             S("c04_dead", 900, 27000),     # guessed ids of requests that died before the wire (timed out, cancelled, superseded)
         ],
         "assumptions": ["the adversarial replier is a raw-mode REP socket (it controls the reply id word completely); requesters in part B are raw-mode REQ sockets"],
